@@ -4,7 +4,7 @@ import Storrent.Model.MetaSha1
 /- driver for the C13 stream:
    `mc <psLen> <name> <name8> <pl> <|pieces|> <length> <files>` -> MetadataComplete on a BInfo
    `slice <hex> <D1|D0>`      -> the raw info value found by infoSlice: length and SHA-1
-   `rt <hex>`                 -> ReadTorrent over raw bytes with the Lean decoder (MetaDecode)
+   `rt`                       -> ReadTorrent over the raw bytes of the current file (set by `slice`) with the Lean decoder
    `magnet <hex> U0 | U1 <scheme> <xts>`  -> ReadMagnet's decision
    `wt <tiers> <webseeds>`    -> WriteTorrent's field selection and ReadTorrent's reading of it -/
 namespace Storrent.Drive.C13
@@ -64,12 +64,14 @@ def wsStr (ws : List (WsKind × Bytes)) : String :=
   else ",".intercalate (ws.map (fun w =>
     (match w.1 with | .getright => "G:" | .hoffman => "H:") ++ toHex w.2))
 
-def step (_ : Unit) (ws : List String) : Unit × String :=
+/-- the state is the file of the current case: `slice` sets it, `rt` and `wtb` use it (the
+    bytes travel once per case) -/
+def step (cur : Bytes) (ws : List String) : Bytes × String :=
   match ws with
   | "mc" :: rest =>
     match MetaLine.parseBInfo rest with
-    | some (psl, bi) => ((), resStr (metadataComplete psl bi))
-    | none => ((), "bad-op")
+    | some (psl, bi) => (cur, resStr (metadataComplete psl bi))
+    | none => (cur, "bad-op")
   | "mc2" :: dn :: rest =>
     -- a magnet's metadata delivered twice: MetadataComplete WITH its assignments
     match ofHex dn, MetaLine.parseBInfo rest with
@@ -91,45 +93,44 @@ def step (_ : Unit) (ws : List String) : Unit × String :=
         | .panic _ => "panic"
       let r1 := metadataCompleteSt st0 bi
       match r1.2 with
-      | .err _ => ((), s!"{one r1} | {one (metadataCompleteSt r1.1 bi)}")
-      | _ => ((), one r1)
-    | _, _ => ((), "bad-op")
-  | ["wtb", tiers, wsl, cdate, ih] =>
-    -- the bytes WriteTorrent produces, and what ReadTorrent-over-bytes makes of them
-    match parseTiers tiers, parseWs wsl, cdate.toInt?, ofHex ih with
-    | some ts, some wl, some cd, some info =>
+      | .err _ => (cur, s!"{one r1} | {one (metadataCompleteSt r1.1 bi)}")
+      | _ => (cur, one r1)
+    | _, _ => (cur, "bad-op")
+  | ["wtb", tiers, wsl, cdate] =>
+    -- the bytes WriteTorrent produces for the torrent read from the current file, and what
+    -- ReadTorrent-over-bytes makes of them
+    match parseTiers tiers, parseWs wsl, cdate.toInt?, topInfo cur with
+    | some ts, some wl, some cd, some ol0 =>
+      let info := sliceBytes cur ol0
       let out := writeTorrentBytes info cd (writeFields ts wl)
       let back := match topInfo out with
         | some ol => if sliceBytes out ol == info then "same-info" else "other-info"
         | none => "no-info"
-      ((), s!"{out.length} {toHex (Sha1.sha1 out)} {back}")
-    | _, _, _, _ => ((), "bad-op")
-  | ["rt", h] =>
-    -- ReadTorrent over raw bytes with the Lean decoder
-    match ofHex h with
-    | none => ((), "bad-op")
-    | some bs =>
-      match readTorrentBytes bs with
-      | .ok info g => ((), s!"{resStr (.ok g)} ih={toHex (Sha1.sha1 info)}")
-      | .noInfo => ((), "rejected")
-      | .badInfo => ((), "rejected")
-      | .err e => ((), "err " ++ errStr e)
-      | .panic _ => ((), "panic")
+      (cur, s!"{out.length} {toHex (Sha1.sha1 out)} {back}")
+    | _, _, _, _ => (cur, "bad-op")
+  | ["rt"] =>
+    -- ReadTorrent over the raw bytes of the current file, with the Lean decoder
+    match readTorrentBytes cur with
+    | .ok info g => (cur, s!"{resStr (.ok g)} ih={toHex (Sha1.sha1 info)}")
+    | .noInfo => (cur, "rejected")
+    | .badInfo => (cur, "rejected")
+    | .err e => (cur, "err " ++ errStr e)
+    | .panic _ => (cur, "panic")
   | ["slice", h, d] =>
     match ofHex h with
-    | none => ((), "bad-op")
+    | none => (cur, "bad-op")
     | some bs =>
-      if d == "D0" then ((), "noinfo")
+      if d == "D0" then (bs, "noinfo")
       else if d == "D1" then
         match infoSlice bs with
-        | none => ((), "nosplit")
+        | none => (bs, "nosplit")
         | some ol =>
           let sl := sliceBytes bs ol
-          ((), s!"info {sl.length} {toHex (Sha1.sha1 sl)}")
-      else ((), "bad-op")
+          (bs, s!"info {sl.length} {toHex (Sha1.sha1 sl)}")
+      else (cur, "bad-op")
   | "magnet" :: h :: rest =>
     match ofHex h with
-    | none => ((), "bad-op")
+    | none => (cur, "bad-op")
     | some m =>
       let url : Option (Option (Bytes × List Bytes)) :=
         match rest with
@@ -140,22 +141,22 @@ def step (_ : Unit) (ws : List String) : Unit × String :=
           | _, _ => none
         | _ => none
       match url with
-      | none => ((), "bad-op")
+      | none => (cur, "bad-op")
       | some url =>
         match readMagnet m url with
-        | .notMagnet => ((), "nil")
-        | .err => ((), "err")
-        | .torrent hh => ((), "hash " ++ toHex hh)
+        | .notMagnet => (cur, "nil")
+        | .err => (cur, "err")
+        | .torrent hh => (cur, "hash " ++ toHex hh)
   | ["wt", tiers, wsl] =>
     match parseTiers tiers, parseWs wsl with
     | some ts, some wl =>
       let f := writeFields ts wl
       let back := readFields (fun _ => true) (fun _ => true) f
       let al := match f.announceList with | none => "nil" | some a => tiersStr a
-      ((), s!"a={toHexU f.announce} al={al} ul={listStr f.urlList} hs={listStr f.httpSeeds} back={tiersStr back.1}|{wsStr back.2}")
-    | _, _ => ((), "bad-op")
-  | _ => ((), "bad-op")
+      (cur, s!"a={toHexU f.announce} al={al} ul={listStr f.urlList} hs={listStr f.httpSeeds} back={tiersStr back.1}|{wsStr back.2}")
+    | _, _ => (cur, "bad-op")
+  | _ => (cur, "bad-op")
 
 end Storrent.Drive.C13
 
-def main : IO Unit := Storrent.runLines Storrent.Drive.C13.step ()
+def main : IO Unit := Storrent.runLines Storrent.Drive.C13.step []
